@@ -558,9 +558,10 @@ def _initialize_state_vars(network):
 						n.state_vars[0].inbound_shipment_pipeline[p_index][rm_index][(n.shipment_lead_time or 0) + l] = \
 							n.get_attribute('initial_orders', prod_ind) or 0
 
-				# Initialize raw material inventory.
-				for rm_index in n.raw_materials_by_product(product='all', return_indices=True, network_BOM=True):
-					n.state_vars[0].raw_material_inventory[rm_index] = 0   
+				# Initialize raw material inventory. (Use a separate loop variable: this loop runs inside the loops
+				# over rm_index and p_index and must not change rm_index for the remaining suppliers of this raw material.)
+				for rm_ind in n.raw_materials_by_product(product='all', return_indices=True, network_BOM=True):
+					n.state_vars[0].raw_material_inventory[rm_ind] = 0   
 
 
 def _receive_inbound_orders(node):
